@@ -89,7 +89,12 @@ func (ci *ChunkInfo) updateNeighborChunkInfo(rootCid, cid boson.Address, overlay
 	}
 	bv, ok := ci.ct.presence[rc][over]
 
-	v := ci.getCidSort(rootCid, cid)
+	v, isData := ci.getCidSort(rootCid, cid)
+	if !isData {
+		// reads of intermediate or manifest chunks say nothing about
+		// the availability of a data chunk
+		return nil
+	}
 	bv.Set(v)
 	bit := BitVector{B: bv.Bytes(), Len: bv.Len()}
 	if overlay.Equal(ci.addr) {
